@@ -6,7 +6,10 @@ negative indices, `x = y` copies, re-assignment, TUPLE ASSIGNMENTS between lists
 literals, repeated names and new names outside the guard), lists returned by user functions, lists local to the main
 loop, lists passed by value to user functions, lists shared between setup() and the main loop, INDICES BUILT FROM len()
 (`x[len(y) - 1]`, `x[2 - len(y)]`: the parser folds len() to the length of its parse-time copy of the list) next to append / remove of
-RUN-TIME scalars (`x.remove(c + 1)`, c read from a sensor in every pass)) are
+RUN-TIME scalars (`x.remove(c + 1)`, c read from a sensor in every pass), LISTS RETURNED BY FUNCTIONS THAT RETURN ONE OF THEIR LIST
+ARGUMENTS (`x = sel(y, z, c)`: a by-value struct, i.e. a shallow copy of a list chosen at run time, assigned to a declared list; also `x = ident(y)`,
+`x = y`, `x = y if c > t else z`), len() INSIDE FUNCTION BODIES whose parameter carries the name of a global list of another length
+(`def h(l0): return l0[len(l0) - 1]` called with l1; `for i in range(len(l0))` over the parameter; len() of a global inside a function)) are
   * run as statements by the extracted Coq model (coq/Wire/C09W.v: parser's choice of emitted form, the list helper
     templates as heap transformers, setup() + N passes of loop(), and the CPython reference semantics),
   * executed under real CPython (harness/impl/c09_impl.py: printed values, live list data after every phase),
@@ -15,7 +18,8 @@ RUN-TIME scalars (`x.remove(c + 1)`, c read from a sensor in every pass)) are
 Correspondence: model firmware run vs real firmware (printed values, live blocks, live bytes per phase, class of the
 memory error), model CPython run vs real CPython.  Oracle (statement of C09 on the real artefacts, inside the guard):
 a script that CPython runs without exception must run clean under the sanitizers, and whenever CPython's live list
-data is the same after two consecutive passes the firmware's live heap bytes are the same too.
+data (counted per object AND per name - the firmware keeps one copy per name where Python aliases, finding
+F-C09-call-result-copy-heap-varies) is the same after two consecutive passes the firmware's live heap bytes are the same too.
 """
 from __future__ import annotations
 
@@ -29,7 +33,7 @@ from harness import fw
 META = {
     "id": "C09",
     "technique": "Coq proof (heap model of the emitted list helper templates; single-owner invariant by induction over statements and passes; simulation of the CPython reference semantics) + extracted-model correspondence with the real transpiler's firmware compiled with clang++ ASan/UBSan and an interposed allocation counter + CPython reference run + property oracle on the sanitizer verdict and per-pass heap usage",
-    "level_text": "Theorems C09_* (coq/Props/C09.v): every list helper is safe iff Python's index condition holds and frees exactly what it replaces (all heaps, all lists), also when the `const T&` argument of append/remove refers into a list buffer - of the same list included (C09_argument_alias_safe); tuple assignments that permute declared lists keep every buffer single-owned (values after = permutation of values before, proved for all permutations); for every single-owner list program and every number of passes the firmware is memory-safe whenever CPython raises no exception, every reachable heap holds exactly the cells of the live lists, and heap usage follows Python's live data (partial: guard single_owner). Refuted with witnesses reproduced on the real firmware under ASan: `b = a` aliasing (use after free, double free), by-value list parameter mutated by the callee, list locals of the main loop and re-assignment temporaries (one block leaked per pass), `c = a` deep copy vs Python alias (heap grows while Python's live data is constant), `a = ident(a)` (__redu_list_assign from a temporary sharing the buffer: use after free), `a, b = [..], a` (tuple assignment drops a buffer without delete[]: leak); the parser's parse-time copy of every list and the folding of len() are inside the model (coq/Device/DListLen.v): C09_len_fold_safe_partial / C09_len_fold_no_leak_partial - for every script of the len() layer inside the guard len_ok, every sequence of run-time values and every number of passes, CPython free of exceptions implies a memory-safe firmware run with the FOLDED lengths; refuted with witnesses reproduced under ASan: folded len() stale through an untaken branch, in a later pass of an unbalanced loop body, after a re-binding inside a branch, after remove(<run-time value>) dropped the wrong entry of the copy (out-of-bounds reads).",
+    "level_text": "Theorems C09_* (coq/Props/C09.v): every list helper is safe iff Python's index condition holds and frees exactly what it replaces (all heaps, all lists), also when the `const T&` argument of append/remove refers into a list buffer - of the same list included (C09_argument_alias_safe); tuple assignments that permute declared lists keep every buffer single-owned (values after = permutation of values before, proved for all permutations); for every single-owner list program and every number of passes the firmware is memory-safe whenever CPython raises no exception, every reachable heap holds exactly the cells of the live lists, and heap usage follows Python's live data (partial: guard single_owner). Refuted with witnesses reproduced on the real firmware under ASan: `b = a` aliasing (use after free, double free), by-value list parameter mutated by the callee, list locals of the main loop and re-assignment temporaries (one block leaked per pass), `c = a` deep copy vs Python alias (heap grows while Python's live data is constant), `a = ident(a)` (__redu_list_assign from a temporary sharing the buffer: use after free), `a, b = [..], a` (tuple assignment drops a buffer without delete[]: leak); the parser's parse-time copy of every list and the folding of len() are inside the model (coq/Device/DListLen.v): C09_len_fold_safe_partial / C09_len_fold_no_leak_partial - for every script of the len() layer inside the guard len_ok, every sequence of run-time values and every number of passes, CPython free of exceptions implies a memory-safe firmware run with the FOLDED lengths; refuted with witnesses reproduced under ASan: folded len() stale through an untaken branch, in a later pass of an unbalanced loop body, after a re-binding inside a branch, after remove(<run-time value>) dropped the wrong entry of the copy (out-of-bounds reads). Third round: read-only sharing (coq/Device/DListProg.v frozen_ok, proofs coq/Proofs/DListShareP.v) - C09_shared_result_python_safe_partial / C09_shared_result_no_leak_partial: for every history in which lists are assigned from calls that return one of their list arguments (the source chosen at run time, different from pass to pass), from other lists and from conditional expressions, the names involved being otherwise only read, CPython free of exceptions implies a memory-safe firmware run in which every name owns its own buffer and the heap holds CPython's live data counted per name (simulation relation that admits Python aliases between read-only names); refuted: heap usage varies while Python's live data per object is constant (C09_shared_result_heap_varies_refuted). Function scope of len() folding (fn_env, first_env): a parameter is never folded whatever global it shadows (C09_fn_param_never_folded, C09_fn_param_len_is_argument_len), a global keeps the copy of the place where the function's list variant is parsed - its FIRST call (C09_fn_global_keeps_def_copy); calls `h(x)` with `def h(P): return P[len(Y) + k]` are inside C09_len_fold_safe_partial; refuted: len() of a global inside a function is stale at a later call (C09_stale_len_first_call_refuted).",
     "level_note": "Trusted: Coq kernel, extraction (ExtrOcamlBasic), OCaml driver, mock Arduino core (operator new[]/delete[] interposed: live-block/byte counter), clang++ 14 AddressSanitizer/UBSan as the memory checker, CPython 3.12 as the reference. The theorems are about the Gallina heap model; the correspondence bounds its distance from emitter.py's LIST_HELPER_SNIPPET and parser.py's assignment lowering. Element values are ints; String buffers, C int overflow of range(), control flow around list statements and the heap behaviour of the real AVR allocator are outside the model.",
     "design_ref": "DESIGN.md section 4 C09",
 }
@@ -55,7 +59,13 @@ EXC_CODE = {"IndexError": 0, "ValueError": 1, "NameError": 2}
 #   [12,x,off] x.append(c + off)   [13,x,off] x.remove(c + off)      (c = p.read() at the top of every pass: a run-time scalar)
 #   [14,x,y,sg,k] mon.write(x[len(y) + k]) (sg = 1)  /  mon.write(x[k - len(y)]) (sg = 0)     (len() is folded by the parser)
 #   [15,x,y] for i in range(len(y)): mon.write(x[i])      (harness-level: sent to the model as the reads x[0] .. x[n-1], n = the folded len(y))
-#   programs with "t": True use the vocabulary of coq/Device/DListLen.v (0 1 2(x = x) 3 4 5 6 8 9 10(names only) 12 13 14) and
+#   [16,x,y,z,t,form] x = sel_t(y, z, c) with `def sel_t(a, b, k): if k > t: return a / return b` (form 0: the call returns a by-value struct,
+#       a SHALLOW copy of the list it selected at run time)  /  x = y if c > t else z (form 1)      (needs c: wire mode 1, resolved per pass)
+#   [17,x,p,y,sg,k] r = h(x); mon.write(r) with `def h(l_p): return l_p[len(l_y) + k]` (sg = 1) / `l_p[k - len(l_y)]`, defined right in front of
+#       `while True:`; the PARAMETER carries the list name p - it may shadow a global list of another length -, y = p: len() of the parameter
+#   [18,x,p,n] r = walk(x) with `def walk(l_p): for i in range(len(l_p)): mon.write(l_p[i]) / return 0`  (harness-level: sent to the model as the
+#       reads f(x, 0) .. f(x, n-1), n = the length x has whenever the statement runs: x is never modified in such a program)
+#   programs with "t": True use the vocabulary of coq/Device/DListLen.v (0 1 2(x = x) 3 4 5 6 8 9 10(names only) 12 13 14 17 18) and
 #   go to the model in wire mode 2 (parse-time list copies, folded len())
 #   a program may carry "lines": {"head","setup","body"} - the literal script lines (witnesses of findings whose
 #   statements are outside the wire vocabulary); such programs never go to the model
@@ -115,7 +125,37 @@ def stmt_lines(s, elem=None):
         return [f"mon.write(l{x}[{idx}])"]
     if t == 15:
         return [f"for i in range(len(l{s[2]})):", f"    mon.write(l{s[1]}[i])"]
+    if t == 16:
+        x, y, z, th, form = s[1:]
+        if form == 0:
+            return [f"l{x} = sel_{th}(l{y}, l{z}, c)"]
+        return [f"l{x} = l{y} if c > {th} else l{z}"]
+    if t == 17:
+        return [f"r = {fn_name(s)}(l{s[1]})", "mon.write(r)"]
+    if t == 18:
+        return [f"r = {fn_name(s)}(l{s[1]})"]
     raise ValueError(s)
+
+
+def fn_name(s) -> str:
+    def n(v):
+        return f"m{-v}" if v < 0 else str(v)
+    if s[0] == 17:
+        return f"h_{s[2]}_{s[3]}_{s[4]}_{n(s[5])}"
+    return f"walk_{s[2]}"
+
+
+def fn_def(s):
+    """the `def` lines of the function a statement 17 / 18 calls"""
+    if s[0] == 17:
+        _, x, p_, y, sg, k = s
+        if sg:
+            idx = f"len(l{y})" + ("" if k == 0 else (f" + {k}" if k > 0 else f" - {-k}"))
+        else:
+            idx = f"-len(l{y})" if k == 0 else f"{par(k)} - len(l{y})"
+        return [f"def {fn_name(s)}(l{p_}):", f"    return l{p_}[{idx}]"]
+    p_ = s[2]
+    return [f"def {fn_name(s)}(l{p_}):", f"    for i in range(len(l{p_})):", f"        mon.write(l{p_}[i])", "    return 0"]
 
 
 def stmt_names(s):
@@ -125,7 +165,16 @@ def stmt_names(s):
         return list(s[1]) + [r[1] for r in s[2] if r[0] == 0]
     if t in (2, 8, 9, 11, 14, 15):
         return [s[1], s[2]]
+    if t == 16:
+        return [s[1], s[2], s[3]]
+    if t == 17:
+        return [s[1]] + [v for v in (s[2], s[3]) if v < FRESH]
+    if t == 18:
+        return [s[1]] + ([s[2]] if s[2] < FRESH else [])
     return [s[1]]
+
+
+FRESH = 1000          # parameter names l1000.. never name a global list (and are not renamed when parts are combined)
 
 
 def gated(prog) -> bool:
@@ -134,7 +183,7 @@ def gated(prog) -> bool:
 
 def uses_c(prog) -> bool:
     """the script reads the run-time scalar c = p.read() at the top of every pass"""
-    return gated(prog) or any(s[0] in (12, 13) for s in prog["body"])
+    return gated(prog) or any(s[0] in (12, 13, 16) for s in prog["body"])
 
 
 def lines_of(prog):
@@ -155,10 +204,17 @@ def lines_of(prog):
         head += ["def g(xs, v):", "    xs.append(v)", "    return xs[0]"]
     if any(s[0] == 11 for s in stmts):
         head += ["def ident(xs):", "    return xs"]
-    if any(s[0] in (6, 7) for s in stmts):
+    for th in sorted({s[4] for s in stmts if s[0] == 16 and s[5] == 0}):
+        head += [f"def sel_{th}(a, b, k):", f"    if k > {th}:", "        return a", "    return b"]
+    if any(s[0] in (6, 7, 17, 18) for s in stmts):
         head += ["r = 0"]
     elem = prog.get("elem")
     setup = [ln for s in prog["setup"] for ln in stmt_lines(s, elem)]
+    seen_fn = []
+    for s in stmts:
+        if s[0] in (17, 18) and fn_name(s) not in seen_fn:
+            seen_fn.append(fn_name(s))
+            setup += fn_def(s)          # in front of `while True:`, after every list declaration
     body = ['mon.write("-")']
     if uses_c(prog):
         body.append("c = p.read()")
@@ -185,6 +241,16 @@ def wire_of(prog):
     if prog.get("t"):
         gates = list(prog.get("gates") or [-1] * len(prog["body"]))
         body = prog["body"]
+        if any(s[0] == 18 for s in body):
+            eb, eg = [], []
+            for s_, g_ in zip(body, gates):
+                if s_[0] == 18:
+                    eb += [[6, s_[1], i] for i in range(s_[3])]
+                    eg += [g_] * s_[3]
+                else:
+                    eb.append(s_)
+                    eg.append(g_)
+            body, gates = eb, eg
         if any(s[0] == 15 for s in body):
             # `for i in range(len(y)): mon.write(x[i])` = the reads x[0] .. x[n-1] with n the FOLDED len(y)
             ns = iter(track_py(prog)[2])
@@ -199,8 +265,8 @@ def wire_of(prog):
                     eg.append(g)
             body, gates = eb, eg
         return [2, prog["setup"], body, gates, list(prog["gvals"])]
-    if gated(prog):
-        return [1, prog["setup"], prog["body"], prog["gates"], prog["gvals"]]
+    if gated(prog) or any(s[0] == 16 for s in prog["body"]):
+        return [1, prog["setup"], prog["body"], prog.get("gates") or [-1] * len(prog["body"]), prog["gvals"]]
     return [0, prog["setup"], prog["body"], prog["N"]]
 
 
@@ -215,6 +281,14 @@ def rename(stmts, off):
             s[1] += off
             if s[0] in (2, 8, 9, 11, 14, 15):
                 s[2] += off
+            elif s[0] == 16:
+                s[2] += off
+                s[3] += off
+            elif s[0] == 17:
+                s[2] += off if s[2] < FRESH else 0
+                s[3] += off if s[3] < FRESH else 0
+            elif s[0] == 18:
+                s[2] += off if s[2] < FRESH else 0
         out.append(s)
     return out
 
@@ -244,7 +318,70 @@ def combine(parts, N):
     return out
 
 
+def history(prog):
+    """the statements pass k executes (gates resolved against the run-time value of the pass, statement 16 resolved to the
+    assignment from the list its call returns: [11,x,w] resp. [2,x,w]) - what coq/Wire/C09W.v mode 1 hands to the model"""
+    gates = prog.get("gates") or [-1] * len(prog["body"])
+    gv = prog.get("gvals") or [0] * prog["N"]
+    out = []
+    for k in range(prog["N"]):
+        g = gv[k] if k < len(gv) else gv[-1]
+        ss = []
+        for st, t in zip(prog["body"], gates):
+            if not t < g:
+                continue
+            if st[0] == 16:
+                w = st[2] if st[4] < g else st[3]
+                st = [11 if st[5] == 0 else 2, st[1], w]
+            ss.append(st)
+        out.append(ss)
+    return out
+
+
+def guard_fz(prog) -> bool:
+    """frozen_ok of coq/Device/DListProg.v (read-only sharing), re-implemented for the oracle (cross-checked against the
+    model's bit on every case that goes to the model in wire mode 0 / 1)"""
+    if prog.get("lines") or prog.get("t"):
+        return False
+    hist = history(prog) if (uses_c(prog) or gated(prog)) else [prog["body"]] * prog["N"]
+    fz = set()
+    for st in prog["setup"] + [st for ss in hist for st in ss]:
+        if st[0] == 11 or (st[0] == 2 and st[1] != st[2]):
+            fz.update([st[1], st[2]])
+    decl = []
+
+    def use_ok3(st):
+        k = st[0]
+        if k in (3, 4):
+            return st[1] in decl and st[1] not in fz
+        if k in (5, 6):
+            return st[1] in decl
+        if k in (8, 9):
+            return st[1] in decl and st[1] not in fz and st[2] in decl
+        if k == 2:
+            if st[1] == st[2]:
+                return st[1] in decl
+            return st[1] in decl and st[2] in decl          # both are in fz by construction
+        if k == 11:
+            return st[1] != st[2] and st[1] in decl and st[2] in decl
+        return False
+
+    for st in prog["setup"]:
+        if st[0] in (0, 1):
+            if st[1] in decl:
+                return False
+            decl.append(st[1])
+        elif not use_ok3(st):
+            return False
+    return all(use_ok3(st) for ss in hist for st in ss)
+
+
 def guard_py(prog) -> bool:
+    """the oracle's domain: single_owner / len_ok / frozen_ok of the Coq models"""
+    return guard_so(prog) or guard_fz(prog)
+
+
+def guard_so(prog) -> bool:
     """single_owner of coq/Device/DListProg.v on the elaborated program, re-implemented for the oracle
     (cross-checked against the model's guard bit on every case)"""
     if prog.get("lines"):
@@ -278,6 +415,8 @@ def guard_py(prog) -> bool:
             decl.append(s[1])
         elif not use_ok(s):
             return False
+    if any(st[0] == 16 for st in prog["body"]):
+        return all(use_ok(st) for ss in history(prog) for st in ss)          # as the model: the statements the passes execute
     return all(use_ok(s) for s in prog["body"])
 
 
@@ -303,6 +442,21 @@ def track_py(prog):
             return s[1] in decl
         if k in (8, 9, 14, 15):
             return s[1] in decl and s[2] in decl
+        if k == 18:
+            return s[1] in decl
+        if k == 17:
+            x, p_, y = s[1:4]
+            if x not in decl:
+                return False
+            if y == p_:
+                return True
+            if y not in decl:
+                return False
+            key = tuple(s[2:6])
+            if key not in fenv:
+                return True          # the function's first call: its list variant is parsed here, with the copies as they are now
+            c0 = fenv[key].get(y)          # the copy at the function's FIRST call
+            return c0 is None or (cur(y) is not None and len(cur(y)) == len(c0))
         if k == 10:
             xs, rs = s[1], s[2]
             if any(r[0] != 0 for r in rs):
@@ -311,6 +465,8 @@ def track_py(prog):
             return (len(xs) == len(ys) and len(set(xs)) == len(xs) and len(set(ys)) == len(ys)
                     and all(y in xs for y in ys) and all(x in decl for x in xs))
         return False
+
+    fenv = {}
 
     def step(s, g, in_setup):
         nonlocal ok
@@ -322,9 +478,11 @@ def track_py(prog):
             if s[1] not in decl:
                 decl.append(s[1])
             return
-        if not use_ok(s) or (is_g and (in_setup or k not in (5, 6, 14, 15))):
+        if not use_ok(s) or (is_g and (in_setup or k not in (5, 6, 14, 15, 17, 18))) or (in_setup and k in (17, 18)):
             ok = False
         x = s[1]
+        if k == 17 and tuple(s[2:6]) not in fenv:
+            fenv[tuple(s[2:6])] = {z: (list(v) if isinstance(v, list) else None) for z, v in t.items()}
         c = cur(x) if k != 10 else None
         if k in (3, 8, 12):
             v = arg_val(s)
@@ -374,12 +532,14 @@ def comp_vals(c):
     return [i * m + k for i in range(a, b, st)] if st != 0 else None
 
 
-def sim(prog):
-    """-> live list data after setup and after each pass when plain Python would run setup + N passes without
+def sim(prog, named=False):
+    """-> live list data (named: counted per name) after setup and after each pass when plain Python would run setup + N passes without
     exception, else None"""
     env = {}
 
     def live():
+        if named:
+            return sum(len(v) for v in env.values())
         seen, tot = set(), 0
         for v in env.values():
             if id(v) not in seen:
@@ -399,6 +559,14 @@ def sim(prog):
         elif t == 15:
             for i in range(len(env[s[2]])):
                 env[s[1]][i]
+        elif t == 16:
+            env[s[1]] = env[s[2]] if c > s[4] else env[s[3]]
+        elif t == 17:
+            n = len(env[s[1]]) if s[3] == s[2] else len(env[s[3]])
+            env[s[1]][(n + s[5]) if s[4] else (s[5] - n)]
+        elif t == 18:
+            if len(env[s[1]]) != s[3]:
+                raise ValueError          # the harness-level expansion assumes the length never changes
         elif t == 0:
             env[s[1]] = list(s[2])
         elif t == 1:
@@ -465,6 +633,8 @@ def cur_lists(stmts, c=0):
                 env[s[1]].append(c + s[2])
             elif t == 13:
                 env[s[1]].remove(c + s[2])
+            elif t == 16:
+                env[s[1]] = env[s[2]] if c > s[4] else env[s[3]]
             elif t == 0:
                 env[s[1]] = list(s[2])
             elif t == 1:
@@ -744,6 +914,169 @@ def gen_len_part(rng, N, pattern, flavour="in"):
             "kind": "len-fallback", "gates": [-1, -1, -1], "gvals": list(pattern), "t": True}
 
 
+def gen_share_part(rng, N, pattern, flavour="in"):
+    """read-only sharing (frozen_ok of coq/Device/DListProg.v): a group of lists that are only read and re-assigned among each
+    other through calls that return one of their list arguments (`x = sel_t(y, z, c)`: WHICH list is decided by the run-time value
+    of the pass, so the source alternates from pass to pass), `x = ident(y)`, `x = y` and conditional expressions between
+    names, next to a single-owner list that takes elements of the shared ones.
+    flavour "out": one of the shared names is also appended to / removed from (Python's alias diverges from the firmware's copy)"""
+    for _ in range(60):
+        L = rng.choice([1, 2, 3, 3, 4])
+        same_len = rng.random() < 0.75
+        nsrc = rng.choice([2, 2, 3])
+        ntgt = rng.choice([1, 1, 2])
+        names = list(range(nsrc + ntgt))
+        srcs, tgts = names[:nsrc], names[nsrc:]
+        lens = {x: (L if same_len else rng.choice([1, 2, 3, 4])) for x in names}
+        setup = []
+        for x in names:
+            if rng.random() < 0.8 or not same_len:
+                setup.append([0, x, [rng.choice(VALS + [9, 11]) for _ in range(lens[x])]])
+            else:
+                setup.append([1, x, [0, lens[x], 1, rng.choice([1, 2, -1]), rng.choice([0, 1, -3])]])
+        lit = {s[1] for s in setup if s[0] == 0}
+        w = None
+        if rng.random() < 0.5:
+            w = len(names)
+            setup.append([0, w, [rng.choice(VALS) for _ in range(rng.choice([1, 2, 3]))]])
+        lmin = min(lens.values())
+        body, gates = [], []
+
+        def assign():
+            x = rng.choice(tgts)
+            cands = [y for y in names if y != x]
+            y, z = rng.sample(cands, 2)
+            r = rng.random()
+            plain_ok = same_len and x in lit and y in lit and z in lit          # `x = y` between lists of one static length
+            if r < 0.6:
+                return [16, x, y, z, rng.choice([0, 1, 2]), 0], -1
+            if r < 0.75 and plain_ok:
+                return [16, x, y, z, rng.choice([0, 1, 2]), 1], -1
+            if r < 0.9:
+                return [11, x, y], rng.choice([-1, -1, 0, 1, 2])
+            if plain_ok:
+                return [2, x, y], rng.choice([-1, 0, 1])
+            return [16, x, y, z, rng.choice([0, 1, 2]), 0], -1
+
+        if rng.random() < 0.3:
+            st, _ = assign()
+            if st[0] != 16:
+                setup.append(st)          # a first copy before the main loop
+        for _ in range(rng.randint(1, 3)):
+            st, g = assign()
+            body.append(st)
+            gates.append(g)
+        for _ in range(rng.randint(1, 4)):
+            pos = rng.randint(0, len(body))
+            x = rng.choice(names)
+            body.insert(pos, [rng.choice([5, 5, 6]), x, rng.choice([0, -1, lmin - 1, -lmin, rng.randrange(-lmin, lmin)])])
+            gates.insert(pos, rng.choice([-1, -1, -1, 1]))
+        if w is not None:
+            y = rng.choice(names)
+            pair = [[8, w, y, rng.choice([0, -1, lmin - 1, -lmin])], [9, w, w, -1]]
+            pos = rng.randint(0, len(body))
+            body[pos:pos] = pair
+            gates[pos:pos] = [-1, -1]
+            if rng.random() < 0.5:
+                body.append([5, w, rng.choice([0, -1])])
+                gates.append(-1)
+        if flavour == "out":
+            x = rng.choice(names)
+            pos = rng.randint(0, len(body))
+            body[pos:pos] = [[3, x, 77], [4, x, 77]] if rng.random() < 0.6 else [[3, x, 77]]
+            gates[pos:pos] = [-1] * (len(body) - len(gates))
+        part = {"setup": setup, "body": body, "N": N, "kind": "share-" + flavour, "gates": gates, "gvals": list(pattern)}
+        if flavour == "out":
+            return part
+        if any(s[0] == 16 for s in body) and sim(part) is not None and guard_fz(combine([part], N)):
+            return part
+    return {"setup": [[0, 0, [1, 2, 3]], [0, 1, [4, 5, 6]], [0, 2, [0, 0, 0]]], "body": [[16, 2, 0, 1, 1, 0], [5, 0, -1], [5, 2, 1]],
+            "N": N, "kind": "share-fallback", "gates": [-1, -1, -1], "gvals": list(pattern)}
+
+
+def gen_fn_part(rng, N, pattern, flavour="in"):
+    """len() inside FUNCTION bodies (coq/Device/DListLen.v: fn_env, TCallLen): `def h(P): return P[len(Y) + k]` and
+    `def walk(P): for i in range(len(P)): mon.write(P[i])`, defined in front of the main loop after every list declaration.
+    The parameter P carries the name of a global list two times out of three - of a list whose parse-time copy has ANOTHER
+    length than the argument of the call -, Y is the parameter or a global list (folded against the copy at the function's first call).
+    flavour "out": the global list Y is modified between the function's first call (where its list variant is parsed and
+    len(Y) folded) and a second call"""
+    for _ in range(80):
+        cs = sorted(set(pattern))
+        nl = rng.choice([2, 2, 3])
+        names = list(range(nl))
+        lens = rng.sample([1, 2, 3, 4, 5], nl)                 # pairwise different lengths
+        setup = []
+        for x, n in zip(names, lens):
+            if x == 0 or rng.random() < 0.75:
+                setup.append([0, x, [rng.choice(VALS + [9]) for _ in range(n)]])
+            else:
+                setup.append([1, x, [0, n, 1, rng.choice([1, 2]), rng.choice([0, 1])]])
+        # the list the run-time rotation works on (holds every c)
+        rot = None
+        if rng.random() < 0.5 or flavour == "out":
+            rot = nl
+            vals = list(cs) + [rng.choice(VALS) for _ in range(rng.choice([0, 1]))]
+            rng.shuffle(vals)
+            setup.append([0, rot, vals])
+            lens = lens + [len(vals)]
+            names = names + [rot]
+        ln = dict(zip(names, lens))
+        body, gates = [], []
+        if rot is not None:
+            body += [[13, rot, 0], [12, rot, 0]]
+            gates += [-1, -1]
+        for _ in range(rng.randint(2, 4)):
+            x = rng.choice(names)
+            r = rng.random()
+            pcands = [q for q in names if q != x and ln[q] != ln[x]]
+            p_ = rng.choice(pcands) if (pcands and r < 0.67) else (x if r < 0.8 else FRESH + rng.randrange(3))
+            y = p_ if rng.random() < 0.7 else rng.choice(names)
+            if y != p_ and y == rot:
+                y = p_
+            n = ln[x] if y == p_ else ln[y]
+            nx = ln[x]
+            sg = rng.random() < 0.7
+            target = rng.choice([nx - 1, nx - 1, 0, -1, -nx, rng.randrange(-nx, nx)])
+            k = target - n if sg else target + n
+            st = [17, x, p_, y, 1 if sg else 0, k]
+            if x == rot:
+                pos = len(body)          # after the rotation pair: the list has its full length again
+            else:
+                pos = rng.randint(0, len(body))
+                if rot is not None and pos == 1:
+                    pos = 2 if y != rot else pos
+            body.insert(pos, st)
+            gates.insert(pos, rng.choice([-1, -1, -1, 0, 1]))
+        if rng.random() < 0.6:
+            x = rng.choice([q for q in names if q != rot])
+            pcands = [q for q in names if q != x and ln[q] > ln[x]] or [q for q in names if q != x]
+            p_ = rng.choice(pcands) if rng.random() < 0.75 else FRESH
+            pos = rng.randint(2 if rot is not None else 0, len(body))
+            body.insert(pos, [18, x, p_, ln[x]])
+            gates.insert(pos, rng.choice([-1, -1, 1]))
+        if rng.random() < 0.5:
+            x = rng.choice([q for q in names if q != rot])
+            pos = rng.randint(2 if rot is not None else 0, len(body))
+            body.insert(pos, [14, x, x, 1, -1])
+            gates.insert(pos, -1)
+        if flavour == "out":
+            # len(<global rot>) is folded where the function is parsed - at its FIRST call -; the second call stands between
+            # the run-time remove and the append
+            call = [17, rot, FRESH + 1, rot, 1, -1]
+            body[1:1] = [list(call)]
+            gates[1:1] = [-1]
+            body[0:0] = [list(call)]
+            gates[0:0] = [rng.choice([-1, -1, 2])]
+        part = {"setup": setup, "body": body, "N": N, "kind": "fn-" + flavour, "gates": gates, "gvals": list(pattern), "t": True}
+        if flavour == "out":
+            return part
+        if track_py(part)[0] and sim(part) is not None:
+            return part
+    return {"setup": [[0, 0, [1, 2, 3]], [0, 1, [7]]], "body": [[17, 1, 0, 0, 1, -1], [18, 1, 0, 1]], "N": N, "kind": "fn-fallback",
+            "gates": [-1, -1], "gvals": list(pattern), "t": True}
+
+
 def gen_index_error_part(rng, N):
     part = gen_guard_part(rng, N, rng.random() < 0.5)
     where = rng.choice(["setup", "body"])
@@ -982,7 +1315,8 @@ def oracle(prog, res):
         # follows the number of non-empty lists, not the amount of live data - left out of the comparison
         return q[2] - STR_COOKIE * q[1] if prog.get("elem") == "str" else q[2]
     for k in range(1, len(ph) - 1):
-        if pyp[k]["live"] == pyp[k + 1]["live"] and ph[k][2] is not None and ph[k + 1][2] is not None and usage(ph[k]) != usage(ph[k + 1]):
+        if (pyp[k]["live"] == pyp[k + 1]["live"] and pyp[k].get("named") == pyp[k + 1].get("named")
+                and ph[k][2] is not None and ph[k + 1][2] is not None and usage(ph[k]) != usage(ph[k + 1])):
             out.append(("leak", f"CPython's live list data is {pyp[k]['live']} elements after pass {k - 1} and after pass {k}, the "
                                 f"firmware's live heap went from {ph[k][2]} to {ph[k + 1][2]} bytes ({ph[k][1]} -> {ph[k + 1][1]} blocks)",
                         ph[k][2], ph[k + 1][2]))
@@ -1067,10 +1401,11 @@ def model_verdict(m):
     pph, perr = [], None
     for q in m[3]:
         if q[0] == 0:
-            pph.append((list(q[1]), q[2]))
+            pph.append((list(q[1]), q[2], q[3] if len(q) > 3 else None))
         else:
             perr = q[1]
-    return guard, fph, ferr, pph, perr
+    fz = bool(m[4]) if len(m) > 4 and isinstance(m[4], int) else None          # frozen_ok (wire modes 0 / 1 only)
+    return guard, fph, ferr, pph, perr, fz
 
 
 def run(ctx: C.Ctx):
@@ -1095,6 +1430,14 @@ def run(ctx: C.Ctx):
         parts.append(gen_len_part(rng, N, GPATTERNS[i % len(GPATTERNS)], "in"))
     for i in range(240 if thorough else 24):
         parts.append(gen_len_part(rng, N, GPATTERNS[i % len(GPATTERNS)], "out"))
+    for i in range(500 if thorough else 60):
+        parts.append(gen_share_part(rng, N, GPATTERNS[i % len(GPATTERNS)], "in"))
+    for i in range(120 if thorough else 10):
+        parts.append(gen_share_part(rng, N, GPATTERNS[i % len(GPATTERNS)], "out"))
+    for i in range(500 if thorough else 60):
+        parts.append(gen_fn_part(rng, N, GPATTERNS[i % len(GPATTERNS)], "in"))
+    for i in range(100 if thorough else 8):
+        parts.append(gen_fn_part(rng, N, GPATTERNS[i % len(GPATTERNS)], "out"))
     ex_parts = gen_exhaustive_parts(3 if thorough else 2, N)
     parts += ex_parts
     # ---- classify every part with the model: safe-expected parts are batched, the others run alone
@@ -1125,9 +1468,10 @@ def run(ctx: C.Ctx):
             out_g.append(p)
             continue
         lv = sim(combine([p], N))
+        lvn = sim(combine([p], N), named=True)
         if lv is None:
             in_exc.append(p)
-        elif len(set(lv[1:])) == 1:
+        elif len(set(lv[1:])) == 1 and len(set(lvn[1:])) == 1:
             in_const.append(p)
         else:
             in_var.append(p)
@@ -1136,7 +1480,7 @@ def run(ctx: C.Ctx):
                         (in_exc, "batch-in-guard-python-raises"), (out_g, "batch-outside-guard")):
         # one potentiometer per sketch: parts of a batch share the per-pass run-time values
         def pkey(p):
-            return (tuple(p["gvals"]) if p.get("gvals") else None, p.get("elem"), bool(p.get("t")))
+            return (tuple(p["gvals"]) if p.get("gvals") else None, p.get("elem"), bool(p.get("t")), p["kind"].startswith("share"))
         pats = []
         for p in group0:
             if pkey(p) not in pats:
@@ -1146,7 +1490,8 @@ def run(ctx: C.Ctx):
             for i in range(0, len(group), BATCH):
                 chunk = group[i:i + BATCH]
                 cases.append({"prog": combine(chunk, N), "parts": chunk,
-                              "family": fam + ("-gated" if k[0] else "") + ("-strings" if k[1] else "") + ("-len" if k[2] else "")})
+                              "family": fam + ("-gated" if k[0] else "") + ("-strings" if k[1] else "") + ("-len" if k[2] else "")
+                                        + ("-shared" if k[3] else "")})
     for p in single:
         cases.append({"prog": combine([p], N), "parts": [p], "family": "single-" + p["kind"].split("-")[0]})
 
@@ -1158,7 +1503,7 @@ def run(ctx: C.Ctx):
           "model_fw_safe": 0, "model_fw_unsafe": {"out-of-bounds": 0, "use-after-free": 0, "double-free": 0},
           "fw_reports": {"clean": 0, "out-of-bounds": 0, "use-after-free": 0, "double-free": 0, "other": 0},
           "oob_not_detected_by_asan": 0, "py_exceptions": {}, "in_guard_py_ok": 0, "phases_compared": 0,
-          "leak_pairs_checked": 0, "stmt_kinds": {}, "prints_compared": 0, "gated_statements": 0, "gated_sketches": 0}
+          "leak_pairs_checked": 0, "shared_phases": 0, "stmt_kinds": {}, "prints_compared": 0, "gated_statements": 0, "gated_sketches": 0}
     for p in parts:
         st["part_kinds"][p["kind"]] = st["part_kinds"].get(p["kind"], 0) + 1
     distinct = set()
@@ -1195,9 +1540,11 @@ def run(ctx: C.Ctx):
         ph = fw_phases(r["events"]) if cls is None else []
         # ---- correspondence: model CPython run vs real CPython
         if mv is not None:
-            guard_m, mf, mferr, mp, mperr = mv
-            if guard_m != g:
-                ctx.disagree("guard: model single_owner vs harness guard_py", info, guard_m, g)
+            guard_m, mf, mferr, mp, mperr, fz_m = mv
+            if guard_m != guard_so(prog):
+                ctx.disagree("guard: model single_owner / len_ok vs harness guard_so", info, guard_m, guard_so(prog))
+            if fz_m is not None and fz_m != guard_fz(prog):
+                ctx.disagree("guard: model frozen_ok vs harness guard_fz", info, fz_m, guard_fz(prog))
             pyp = py.get("phases", [])
             real_exc = next((q["exc"] for q in pyp if "exc" in q), None)
             if (mperr is None) != (real_exc is None) or (mperr is not None and EXC_CODE.get(real_exc) != mperr):
@@ -1209,9 +1556,9 @@ def run(ctx: C.Ctx):
                     ints = [x for x in b["out"] if isinstance(x, int)]
                     if prog.get("elem") == "str":
                         ints = [int(x) for x in b["out"] if isinstance(x, str) and re.fullmatch(r"-?\d+", x)]
-                    if a[0] != ints or a[1] != b["live"]:
-                        ctx.disagree(f"CPython reference, phase {k}: printed values / live data differ (model vs real CPython)",
-                                     info, [a[0], a[1]], [ints, b["live"]])
+                    if a[0] != ints or a[1] != b["live"] or (a[2] is not None and a[2] != b.get("named")):
+                        ctx.disagree(f"CPython reference, phase {k}: printed values / live data (per object, per name) differ (model vs real CPython)",
+                                     info, [a[0], a[1], a[2]], [ints, b["live"], b.get("named")])
                         break
             # ---- correspondence: model firmware run vs real firmware under ASan/UBSan
             if mferr is None:
@@ -1258,7 +1605,9 @@ def run(ctx: C.Ctx):
             st["in_guard_py_ok"] += 1
             evaluations += prog["N"] + 1
             pyp = py["phases"]
-            st["leak_pairs_checked"] += sum(1 for k in range(1, len(pyp) - 1) if pyp[k]["live"] == pyp[k + 1]["live"])
+            st["leak_pairs_checked"] += sum(1 for k in range(1, len(pyp) - 1)
+                                            if pyp[k]["live"] == pyp[k + 1]["live"] and pyp[k].get("named") == pyp[k + 1].get("named"))
+            st["shared_phases"] += sum(1 for q in pyp if q.get("named") != q.get("live"))
             for key, what, exp, obs in oracle(prog, res):
                 fcase, fwhat, fexp, fobs = info, what, exp, obs
                 if key not in seen_fail:
@@ -1313,7 +1662,14 @@ def run(ctx: C.Ctx):
                 "(rotation by the RUN-TIME value `l0.remove(c + off); l0.append(c + off)` - also append first -, by an own element, by a constant of the list, by a fresh constant), "
                 "25 % an ungated permutation, 2-4 reads `x[len(y) + k]` / `x[k - len(y)]` (y = x 70 %; target index boundary-heavy: len-1, 0, -1, -len, random) under gates -1 / 0 / 1 / 2, "
                 "optional plain read; len-out applies one stale-copy change: a gate on an append / remove, one statement of a pair dropped, a gated permutation, a constant remove of the "
-                "copy's first entry after the run-time remove. Every "
+                "copy's first entry after the run-time remove; (f) kind share-in / share-out (frozen_ok): 2-3 source lists and 1-2 target lists (75 % of one length, literals / comprehensions), optionally a "
+                "single-owner list w; loop body = 1-3 assignments into a target - 60 % `x = sel_t(y, z, c)` (def sel_t(a, b, k): if k > t: return a / return b; t in 0, 1, 2 against the three input patterns, so the "
+                "returned list alternates between passes), `x = y if c > t else z`, `x = ident(y)` and `x = y` (plain / gated) -, 30 % a first copy before the loop, 1-4 reads (plain / by-value call, boundary indices "
+                "valid for every list of the group), w.append(y[i]); w.remove(w[-1]) with y shared; share-out additionally appends to / removes from a shared name; (g) kind fn-in / fn-out (fn_env / first_env, wire mode 2): "
+                "2-3 lists of pairwise DIFFERENT lengths (+ a list rotated by the run-time value), 2-4 calls r = h(x) of `def h(l_p): return l_p[len(l_y) + k]` / `l_p[k - len(l_y)]` whose parameter l_p is, two times out of "
+                "three, the NAME OF ANOTHER GLOBAL LIST (shadowing; else the argument's own name or a fresh name), y = the parameter (70 %) or a global, target index boundary-heavy, gates -1 / 0 / 1; 60 % a call of "
+                "`def walk(l_p): for i in range(len(l_p)): mon.write(l_p[i])` with a shadowing parameter of a LONGER global; the defs stand after every list declaration, right in front of `while True:`; fn-out calls a function "
+                "that reads len() of a global once before and once after that global shrank. Every "
                 "part is classified by the model; parts it expects to run safely are batched 10 per sketch (disjoint names), the others "
                 "run one per sketch (quick tier: a seeded sample). evaluations = phases (setup + passes) of in-guard exception-free "
                 "sketches judged by the oracle + 1 per other sketch compared; distinct non-trivial = distinct parts with more than 2 statements.",
@@ -1324,12 +1680,16 @@ def run(ctx: C.Ctx):
         "exhaustive": False,
         "exhaustive_part": f"loop bodies of length <= {3 if thorough else 2} over the 16-statement alphabet (classified by the model; "
                       f"{'all' if thorough else 'a seeded sample of the unsafe ones'} run on the firmware)",
-        "guard": "single_owner (coq/Device/DListProg.v; harness guard_py cross-checked against it on every case): lists are declared "
+        "guard": "single_owner OR len_ok OR frozen_ok (harness guard_so / track_py / guard_fz, each cross-checked against the model's bit on every case). frozen_ok (read-only sharing): lists declared before the loop under fresh names; "
+                 "the names that occur in `x = <call returning the list y>` / `x = y` (x != y, both declared) are otherwise only read (index, by-value read-only call, element argument of another list's append/remove) or re-assigned "
+                 "among each other; the other names: append / remove / index / `x = x` / element arguments; no tuple assignment; the leak clause is evaluated between two passes only when CPython's live data is the same per object "
+                 "and per name (F-C09-call-result-copy-heap-varies). len_ok additionally admits calls of `def h(P): return P[len(Y) + k]` in the main loop with Y = the parameter (any parameter name) or a global whose parse-time copy has "
+                 "at every call the length it had at the function's first call (F-C09-stale-len-function-first-call-out-of-bounds). single_owner (coq/Device/DListProg.v): lists are declared "
                  "before the main loop from a literal or a range comprehension, each under a fresh name; afterwards only append / remove / "
                  "index / by-value read-only call / `x = x` / `x.append(y[i])`, `x.remove(y[i])` with x, y declared (possibly the same) / tuple assignment "
                  "whose right-hand sides are its (declared, pairwise different) targets in another order. Outside (listed findings): tuple assignment with a literal "
-                 "(F-C09-tuple-assignment-literal-leak), list assigned from a function call (F-C09-assign-from-call-self-alias-use-after-free), len() of a list "
-                 "used as an index (F-C09-stale-len-out-of-bounds; never generated), `b = a` (F-C09-alias-use-after-free, "
+                 "(F-C09-tuple-assignment-literal-leak), a list assigned from a call that returns THAT list (`a = ident(a)`: F-C09-assign-from-call-self-alias-use-after-free), stale folded len() "
+                 "(F-C09-stale-len-*: outside len_ok), `b = a` (F-C09-alias-use-after-free, "
                  "F-C09-alias-double-free, F-C09-clone-divergence-heap-growth, F-C09-clone-divergence-out-of-bounds), re-assignment from a literal or comprehension (F-C09-reassign-temporary-leak), list first "
                  "assigned inside the main loop (F-C09-loop-local-leak), function mutating its list parameter "
                  "(F-C09-byvalue-param-use-after-free). Oracle also requires CPython to run the script without any exception. Programs "
@@ -1342,7 +1702,9 @@ def run(ctx: C.Ctx):
                        "subscript stores `a[i] = v` (the transpiler drops the line: C07's domain; the model keeps list_set as a helper-level operation only)",
                        "allocator behaviour of the real AVR heap (fragmentation, new[] failure); out-of-bounds reads that ASan cannot see "
                        "(1-4 ints before the buffer fall into the mock counter's own header: counted in distribution.oob_not_detected_by_asan)",
-                       "len() outside an index of the forms `len(y) + k`, `k - len(y)` (`n = len(a)` stored in a variable, `for i in range(len(a))`, len() of strings / literals, len() in conditions); "
+                       "len() outside an index of the forms `len(y) + k`, `k - len(y)` at statement level or as the returned subscript of a one-parameter function (`n = len(a)` stored in a variable, len() of strings / literals, len() in conditions; "
+                       "`for i in range(len(a))` is exercised at harness level only: expanded to the reads the model is sent); functions with several list parameters, functions that build and return a FRESH list, conditional expressions mixing a name with a list literal (the temporary leaks: outside every guard); "
+                       "the order in which function variants of different signatures are parsed (one list signature per function here); "
                        "list literals with run-time elements (`[1, c]`: no parse-time copy); run-time scalars other than `c + off` with c read once per pass, run-time scalars before the main loop",
                        "append/remove arguments that are expressions over list elements (`a.append(a[0] + 1)`: a temporary, by value); list literals built from elements of lists (`b = [a[1], a[0]]`)",
                        "tuple assignments that mix lists and scalars, or declare some targets and assign others inside setup() (the new names become locals of setup(): C06's domain)",
@@ -1351,7 +1713,7 @@ def run(ctx: C.Ctx):
             "mock/mock_core.cpp operator new[]/delete[] interposition (live blocks / bytes, sampled after setup() and every pass), mock Serial printing",
             "clang++ 14 -fsanitize=address,undefined -O0 as the memory checker (halting on the first report; class read from its SUMMARY line)",
             "harness/fw.py, harness/impl/transpile_impl.py (real parse+emit), harness/impl/c09_impl.py (CPython exec of the same lines; live data = total length of distinct list objects bound to module names)",
-            "harness/props/c09.py: script text of a statement, guard_py / track_py (cross-checked against the model's single_owner / len_ok on every case), classification of sanitizer reports"],
+            "harness/props/c09.py: script text of a statement, guard_so / guard_fz / track_py (cross-checked against the model's single_owner / frozen_ok / len_ok on every case), history() (which list a `sel` call returns in which pass), classification of sanitizer reports"],
     })
     ctx.assumptions += ["the mock core + ASan/UBSan define 'memory error' (DESIGN.md section 3); freed blocks are quarantined, so a stale pointer never aliases a newer block during a run",
                         "sizeof(int) = 4 under the mock (live bytes = 4 * live cells)",
